@@ -39,6 +39,9 @@ def main():
     rc, o = sh(f"git -C /repo apply {d}/patch.diff")
     assert rc == 0, o
     results = {}
+    # the checks rewrite evidence/<id>.json on every run; what they write on a patched tree is not a
+    # record of the unchanged tree, so the files are put back afterwards
+    saved = {p: open(f"{VERIF}/evidence/{p}.json").read() for p in props if os.path.exists(f"{VERIF}/evidence/{p}.json")}
     try:
         for p in props:
             rc, o = sh(f"./check {p} --tier quick", cwd=VERIF)
@@ -47,6 +50,8 @@ def main():
             print(p, "exit", rc, *[v[:200] for v in vio[:3]], sep="\n   ")
     finally:
         sh("git -C /repo checkout -- .")
+        for p, text in saved.items():
+            open(f"{VERIF}/evidence/{p}.json", "w").write(text)
     meta.setdefault("checks_run", {}).update(results)
     meta["alarms"] = sorted(p for p, v in meta["checks_run"].items() if v["exit"] != 0)
     json.dump(meta, open(f"{d}/meta.json", "w"), indent=1)
